@@ -72,6 +72,7 @@ func recvFieldOps(fn *ssa.Function, typeName string) (reads, writes map[string]b
 func runC30(c *Ctx) {
 	w := c.W
 	c30Extras(c)
+	c30Extras3(c)
 	type msg struct {
 		typ       string
 		mar, unm  *ssa.Function
